@@ -14,6 +14,7 @@ RULES = {
     "R-01.2": "_validate_labels raises LabelTooLong exactly for len(label) >= 64 and NameTooLong exactly for sum(len+1) >= 256",
     "R-01.3": "wire decoding: every seek target is strictly below every earlier pointer and the name's start; literal labels are < 64 octets; other label types raise; the loop consumes input on every iteration",
     "R-01.4": "compression table: offsets stored are <= 0x3FFF and taken before the label is written, keyed by the same suffix that is looked up; the root is never inserted; pointers are 0xC000 + stored offset",
+    "R-01.7": "text emission and parsing decide relativity on the right object: Name.to_styled_text reads only the name produced by choose_relativity (never `self` again), and from_text / from_unicode decide whether to append the origin from the parsed labels (a trailing empty label), not from the raw text",
     "R-01.5": "every octet some reader gives meaning to is escaped by the writer (reader-special is a subset of writer-escaped); \\DDD is written and read with exactly 3 digits",
     "R-01.6": "a \\DDD escape above 255 is rejected with BadEscape",
 }
@@ -263,6 +264,30 @@ def run(model, rep, tier):
               int_bound_gt(atoms(normalise_compare(t.ast.test))[0]) == (et.get("__total"), 256)]
         okk = bool(ts) and cfg.edge_dominated(pk.id, {(ts[0].id, "f")}) and any(isinstance(s, ast.Raise) and "BadEscape" in src(s) for s in ts[0].ast.body)
         rep.check(okk, "R-01.6", ft.qualname, where(ft, pk.ast), "\\DDD is packed into one octet only when <= 255, else BadEscape", "a \\DDD escape above 255 reaches struct.pack('!B', ...) and raises struct.error", stmt="ddd-range")
+    # ---------------------------------------------------------------- R-01.7
+    ts = model.func(f"{NAME}.to_styled_text")
+    tcfg = CFG(ts.node, implicit_exc=False)
+    chosen = [n for n in tcfg.stmts() if isinstance(n.ast, ast.Assign) and isinstance(n.ast.value, ast.Call) and src(n.ast.value.func) == "self.choose_relativity"]
+    if len(chosen) != 1:
+        rep.blind("R-01.7", ts.qualname, where(ts, ts.node), "`<v> = self.choose_relativity(...)` not found", stmt="styled-name")
+    else:
+        later = [(n, x) for n in tcfg.stmts() if n.id != chosen[0].id and n.id in tcfg.reachable([chosen[0].id]) for x in own_nodes(n.ast) if isinstance(x, ast.Name) and x.id == "self"]
+        for (n, x) in later:
+            rep.bad("R-01.7", ts.qualname, where(ts, x), f"`{src(n.ast)[:50]}` reads `self` after the name was put into the style's relativity (`{src(chosen[0].ast.targets[0])}`): "
+                    "the decision (empty -> '@', absolute -> drop the final dot) is taken on another name than the one printed", stmt="styled-name self-read")
+        rep.ok("R-01.7", ts.qualname, where(ts, chosen[0].ast), f"after `{src(chosen[0].ast)[:60]}` only that name is read ({len(later)} reads of self)", stmt="styled-name")
+    for qn in ("dns.name.from_text", "dns.name.from_unicode"):
+        f7 = model.func(qn)
+        ext = [n for n in ast.walk(f7.node) if isinstance(n, ast.If) and any(isinstance(c, ast.Call) and src(c.func).endswith(".extend") and "origin.labels" in src(c) for s_ in n.body for c in ast.walk(s_))]
+        if len(ext) != 1:
+            rep.blind("R-01.7", qn, where(f7, f7.node), "the `labels.extend(origin.labels)` decision was not found", stmt="origin-append")
+            continue
+        names_in_test = {x.id for x in ast.walk(ext[0].test) if isinstance(x, ast.Name)}
+        at = set(atoms(normalise_compare(ext[0].test)))
+        lab = next((a[0][4:-1] for a in at if a[0].startswith("len(") and a[1] == "==" and a[2] == "0"), None)
+        okk = lab is not None and (f"{lab}[-1]", "!=", "b''") in at and ("origin", "is not", "None") in at and names_in_test <= {lab, "origin", "len"}
+        rep.check(okk, "R-01.7", qn, where(f7, ext[0]), f"the origin is appended iff the parsed `{lab}` do not end in the empty (root) label and an origin was given",
+                  f"the decision to append the origin is `{src(ext[0].test)[:70]}`: it must depend on the parsed labels only (an escaped final dot `\\.` in the text is not the root label)", stmt="origin-append")
     rep.assume("IDNA codecs (idna package / encodings.idna) are outside the analysed program")
     rep.meta["explanation"] = (
         "Must-pass-through and who-may-write rules for the validation gate, normalised-bound rules for the 63/255 limits and the compression offset, a well-founded-measure argument for "
@@ -271,6 +296,10 @@ def run(model, rep, tier):
 
 
 WITNESSES = [
+    {"id": "c01-styled-text-tests-self", "rule": "R-01.7", "file": "dns/name.py", "expect": "fires",
+     "old": "        if style.omit_final_dot and name.is_absolute():", "new": "        if style.omit_final_dot and self.is_absolute():"},
+    {"id": "c01-origin-append-from-raw-text", "rule": "R-01.7", "file": "dns/name.py", "expect": "fires",
+     "old": "    if (len(labels) == 0 or labels[-1] != b\"\") and origin is not None:\n        labels.extend(list(origin.labels))\n    return Name(labels)\n\n\ndef from_wire_parser", "new": "    if not text.endswith(b\".\") and origin is not None:\n        labels.extend(list(origin.labels))\n    return Name(labels)\n\n\ndef from_wire_parser"},
     {"id": "c01-last-empty-label-remembered", "rule": "R-01.2", "file": "dns/name.py", "expect": "fires",
      "old": "        if i < 0 and label == b\"\":\n            i = j", "new": "        if label == b\"\":\n            i = j"},
     {"id": "c01-twin-validate-labels-enumerate", "rule": "R-01.2", "file": "dns/name.py", "expect": "silent",
